@@ -45,7 +45,8 @@ def shoelace(pts):
 def ckey(c):
     """Canonical geometric sort key of a column."""
     n = max(len(c.node), 1)
-    return (round(sum(float(p.pos[0]) for p in c.node) / n, 6), round(sum(float(p.pos[1]) for p in c.node) / n, 6), len(c.node))
+    return (round(sum(float(p.pos[0]) for p in c.node) / n, 6), round(sum(float(p.pos[1]) for p in c.node) / n, 6), len(c.node),
+            tuple(sorted((round(float(p.pos[0]), 6), round(float(p.pos[1]), 6)) for p in c.node)))
 
 
 def canon(geo):
@@ -555,7 +556,7 @@ PROMISES_VALID = set(['split', 'rename', 'rename1', 'rename-perm', 'refine', 're
 
 def subset_family(n, rnd, fam):
     """Index subsets of range(n): every non-empty subset when n <= fam['exh'], else a bounded family."""
-    if n <= fam['exh']:
+    if n <= max(fam['exh'], 2):
         return [list(s) for k in range(1, n + 1) for s in itertools.combinations(range(n), k)]
     out = [list(range(n))]
     singles = list(range(n)); rnd.shuffle(singles)
@@ -1045,16 +1046,8 @@ RECT32 = ['rect', [1., 2., 1.5], [1., 1.5], [1., 1., 2.], 1, 0, [0.0, -0.5, -1.0
 MIXED5 = ['mixed5']
 
 
-def main():
-    import multiprocessing as mp
-    tier = sys.argv[1] if len(sys.argv) > 1 else 'quick'
-    seed = int(sys.argv[2]) if len(sys.argv) > 2 else 0
-    t0 = time.time()
-    budget = float(os.environ.get('VERIF_BUDGET_S', 45 if tier == 'quick' else 780))   # wall-clock guard; sub-trees not reached are counted
-    deadline = t0 + budget
-    tmpdir = tempfile.mkdtemp(prefix='pytough-', dir='/var/tmp')
-    rnd = random.Random(seed)
-    try:
+def make_tasks(tier, seed, deadline, tmpdir):
+    if True:
         if tier == 'quick':
             depth = 2
             fams = [dict(exh=6, singles=0, compl=0, random=0, maxsplit=6, cons=7, grow=3, fit=True, layers='all', roundtrip=0.0),
@@ -1064,8 +1057,8 @@ def main():
             depth = 3
             fams = [dict(exh=6, singles=0, compl=0, random=0, maxsplit=6, cons=7, grow=3, fit=True, layers='all', roundtrip=0.0),
                     dict(exh=4, singles=5, compl=2, random=4, maxsplit=4, cons=3, grow=2, fit=True, layers='few', roundtrip=0.02),
-                    dict(exh=0, singles=1, compl=0, random=1, maxsplit=1, cons=1, grow=1, fit=False, layers='few', roundtrip=0.01, lite=True, expand=0.15)]
-            nrandom, rlen, maxcols = 300, 25, 320
+                    dict(exh=0, singles=1, compl=0, random=1, maxsplit=1, cons=1, grow=1, fit=False, layers='few', roundtrip=0.01, lite=True, expand=0.08)]
+            nrandom, rlen, maxcols = 200, 25, 320
         tasks = []
         for base in (RECT22, RECT32, MIXED5):
             g = build_base(base)
@@ -1074,6 +1067,9 @@ def main():
                 tasks.append(('x', (base, [op], depth, fams, seed * 1000003 + len(tasks), deadline, tmpdir)))
         for name in ('g3.dat', 'g7.dat', 'g1.dat'):
             tasks.append(('x', (['fileraw', name], [['check-fix']], 1, fams, seed, deadline, tmpdir)))
+        # the shipped geometries with 5- and 6-sided columns, decomposed as a whole and in part
+        for name in ('g1.dat', 'g3.dat'):
+            tasks.append(('x', (['file', name, 1000, 0], [['decompose-all'], ['decompose', list(range(0, 300, 3))]], 1, fams, seed, deadline, tmpdir)))
         files = [('g7.dat', 300), ('g1.dat', 300), ('g5.dat', 300), ('g6.dat', 300), ('g3.dat', 300), ('g2.dat', 250), ('g4.dat', 250)]
         for i in range(nrandom):
             r = random.Random(seed * 7919 + i)
@@ -1091,10 +1087,25 @@ def main():
             else:
                 base = ['refined', MIXED5, [['decompose-all'], ['refine', False, [0], []]]]
             tasks.append(('r', (base, rlen, seed * 104729 + i, maxcols, deadline, tmpdir)))
+    return tasks
+
+
+def main():
+    import multiprocessing as mp
+    tier = sys.argv[1] if len(sys.argv) > 1 else 'quick'
+    seed = int(sys.argv[2]) if len(sys.argv) > 2 else 0
+    t0 = time.time()
+    budget = float(os.environ.get('VERIF_BUDGET_S', 36 if tier == 'quick' else 780))   # wall-clock guard; sub-trees not reached are counted
+    deadline = t0 + budget
+    tmpdir = tempfile.mkdtemp(prefix='pytough-', dir='/var/tmp')
+    rnd = random.Random(seed)
+    try:
+        tasks = make_tasks(tier, seed, deadline, tmpdir)
         # longest first: random histories on big geometries, then exhaustive sub-trees
-        rest = [i for i, t in enumerate(tasks) if t[0] == 'x' and t[1][0][0] != 'fileraw']
-        random.Random(seed).shuffle(rest)      # so that a truncation by the time guard hits all three small geometries evenly
-        order = [i for i, t in enumerate(tasks) if t[1][0][0] == 'fileraw'] + [i for i, t in enumerate(tasks) if t[0] == 'r'] + rest
+        first = [i for i, t in enumerate(tasks) if t[0] == 'x' and t[1][0][0] in ('fileraw', 'file')]
+        rest = [i for i in range(len(tasks)) if i not in first]
+        random.Random(seed).shuffle(rest)      # so that a truncation by the time guard (loaded machine) hits all families evenly
+        order = first + rest
         results = {}
         with mp.Pool(min(16, os.cpu_count() or 4)) as pool:
             for i, rec in pool.imap_unordered(run_task, [(i, tasks[i]) for i in order], chunksize=1):
